@@ -305,8 +305,13 @@ class _Dialect(type):
         gen_cls = klass.generator_class
         supported = getattr(gen_cls, "SUPPORTED_JSON_PATH_PARTS", None)
         if isinstance(supported, set):
-            for part in ALL_JSON_PATH_PARTS - supported:
-                gen_cls.TRANSFORMS.pop(part, None)
+            unsupported = [p for p in ALL_JSON_PATH_PARTS - supported if p in gen_cls.TRANSFORMS]
+            if unsupported:
+                if "TRANSFORMS" not in gen_cls.__dict__:
+                    # The table is inherited: don't edit the base generator's
+                    gen_cls.TRANSFORMS = dict(gen_cls.TRANSFORMS)
+                for part in unsupported:
+                    gen_cls.TRANSFORMS.pop(part, None)
 
         klass.QUOTE_START, klass.QUOTE_END = list(klass.tokenizer_class._QUOTES.items())[0]
         klass.IDENTIFIER_START, klass.IDENTIFIER_END = list(
